@@ -214,8 +214,8 @@ PROPS = {
         "trusted": ["the mint account base layout / Anchor InterfaceAccount<Mint> unpacking (accounts of length 82 or > 165, never 355); sequences of instructions are covered through the write-site inventory, not executed"],
     },
     "C20": {
-        "lean_modules": ["WP.Props.C20"],
-        "lean_support": [],
+        "lean_modules": ["WP.Props.C20", "WP.Props.SdkStep", "WP.Props.SdkSwap"],
+        "lean_support": ["WP.Props.SdkSearch"],
         "families": [("sdkmath", 100000, 5000000), ("sdkticks", 0, 0), ("sdkaf", 60000, 3000000), ("hist", 12000, 300000)],
         "history": True,
         "rule": "sdkmath: the REAL rust-sdk/core crate (linked as is; only ethnum replaced by the vendored stand-in) against the program functions on boundary-biased inputs: token A / B for liquidity, next price from A / B, "
@@ -223,9 +223,11 @@ PROPS = {
                 "tick -> price and price -> tick at and one below each tick price; sdkaf: the SDK's adaptive-fee variable rules (update_reference / update_volatility_accumulator / update_major_swap_timestamp of AdaptiveFeeVariablesFacade) "
                 "against the program's AdaptiveFeeVariables methods on arbitrary stored variables over every elapsed-time class around filter / decay / 3600 s measured from BOTH stored timestamps; hist: every swap of every pool history (static and adaptive-fee pools, explicit price limits, partial fills) is also computed by the SDK's "
                 "compute_swap on facades of the same pre-swap state and compared (amount A, amount B, total fee); where the program refuses, an SDK number is accepted only for PartialFillError / running off the arrays; "
+                "op sdkq: a third of the swaps are asked as QUOTES of the real SDK on the current state, and the Lean model of the SDK's compute_swap (WP/Model/SdkSwap.lean) must give the same three numbers or the same error class; "
                 "non-trivial = both sides return a value",
         "trusted": ["ethnum is not in the offline cargo cache: harness/vendor/ethnum is a 500-line stand-in implementing ethnum's documented semantics (release: wrapping arithmetic, checked_shl rejects only shifts >= 256); the two repaired defects were demonstrated with it",
                     "the TypeScript SDK is the same Rust core compiled to WASM plus JS glue; the glue and the wasm boundary (U128 conversions) are not executed",
-                    "the SDK's swap loop and fee manager are compared with the program's by differential execution only (no Lean model of them)"],
+                    "the Lean model of the SDK's swap loop reuses the program's fee-manager model for the SDK's FeeRateManager (a port of it): tied to the real SDK by sdkq on adaptive-fee histories and by sdkaf",
+                    "sort_by_key of TickArraySequence::new is done by the model driver (insertion into an ascending list)"],
     },
 }
